@@ -306,11 +306,12 @@ def roll_spec(draw):
     import datetime as dt
 
     rolls = {}
+    same_day = draw(st.integers(0, n)) if draw(st.integers(0, 2)) == 0 else None  # all rolls due together (chains resolved within one call)
     for t in sources:
         # targets may themselves be sources (chains a -> b -> c), but no cycles: only roll "forward" in ticker order
         later = [x for x in tickers if x > t]
         tg = draw(st.sampled_from(later or [tickers[-1]]))
-        k = draw(st.integers(0, n))
+        k = draw(st.integers(0, n)) if same_day is None else same_day
         d = ds[k][:10] if k < n else (dt.datetime.fromisoformat(ds[-1]) + dt.timedelta(days=5)).strftime("%Y-%m-%d")
         rolls[t] = {"date": d, "target": tg, "factor": draw(st.sampled_from([1.0, 1.0, 0.5, 2.0, 1.25]))}
     held = draw(st.lists(st.sampled_from(tickers), min_size=1, max_size=nt, unique=True))
